@@ -116,6 +116,8 @@ func runKSCase(t *testing.T, c ksCase, keys ksKeys, master []byte) (coq string, 
 
 	sealed := map[string]int{} // live slot -> key pair it was sealed for (ghost)
 
+	var heldData, heldCopy [][]byte // results of MarshalBinary the caller still holds, and what they were
+
 	exec := func(ops []ksOp, tampered bool) []string {
 		var out []string
 
@@ -212,6 +214,16 @@ func runKSCase(t *testing.T, c ksCase, keys ksKeys, master []byte) (coq string, 
 
 				data, err = ks.MarshalBinary()
 				if err == nil {
+					// the caller keeps what MarshalBinary returned (a persisted snapshot): later operations on the storage,
+					// later marshals included, must not change it
+					heldData = append(heldData, data)
+					heldCopy = append(heldCopy, bytes.Clone(data))
+
+					if again, err2 := ks.MarshalBinary(); err2 == nil {
+						heldData = append(heldData, again)
+						heldCopy = append(heldCopy, bytes.Clone(again))
+					}
+
 					fresh := &keystorage.KeyStorage{}
 					err = fresh.UnmarshalBinary(data)
 
@@ -226,6 +238,13 @@ func runKSCase(t *testing.T, c ksCase, keys ksKeys, master []byte) (coq string, 
 
 			if err != nil {
 				flags["op_error"] = true
+			}
+
+			for i := range heldData {
+				if !bytes.Equal(heldData[i], heldCopy[i]) {
+					problems = append(problems, fmt.Sprintf("marshal-result-overwritten: the bytes returned by an earlier MarshalBinary changed after operation %q (snapshot %d)", o.Op, i))
+					heldCopy[i] = bytes.Clone(heldData[i])
+				}
 			}
 		}
 
